@@ -3,10 +3,13 @@
 #![allow(dead_code)]
 mod core;
 mod gen;
+mod modinfo;
 mod projects;
 mod props;
 mod run;
 mod sbx;
+mod shape;
+mod typesite;
 #[allow(dead_code)]
 mod ts;
 
